@@ -1,7 +1,7 @@
 """C10 implementation driver: builds real in-memory SQLite databases of Fit objects from
 abstract descriptions, builds real query objects through the aggregator API, runs
-Aggregator.query / order_by / slicing, and evaluates the same predicate directly on the
-objects read back from the database (fit.instance, fit.info, fit columns)."""
+Aggregator.query / order_by / slicing (in any order), and evaluates the same predicates
+directly on the objects read back from the database (fit.instance, fit.info, fit columns)."""
 import json
 import logging
 import operator
@@ -24,7 +24,7 @@ MISSING = object()
 # ---------------------------------------------------------------- objects
 def build_obj(o):
     if "v" in o:
-        return o["v"] / 8.0
+        return o["v"]                 # int, float or bool exactly as generated
     if "s" in o:
         return o["s"]
     if "none" in o:
@@ -48,7 +48,7 @@ def make_session(dbdesc):
         fit = db.Fit(
             id=f["id"], instance=build_obj(f["inst"]), name=f["name"], unique_tag=f["unique_tag"],
             path_prefix=f["path_prefix"], is_complete=f["is_complete"], is_grid_search=f["is_grid_search"],
-            max_log_likelihood=f["mll"] / 8.0, info=f["info"], parent_id=f["parent"],
+            max_log_likelihood=f["mll"], info=f["info"], parent_id=f["parent"],
         )
         session.add(fit)
         session.commit()
@@ -82,7 +82,7 @@ def dump_db(session):
 # ---------------------------------------------------------------- predicates -> real query objects
 def const_value(c):
     if "n" in c:
-        return c["n"] / 8.0
+        return c["n"]
     if "s" in c:
         return c["s"]
     if "none" in c:
@@ -102,10 +102,8 @@ def build_query(agg, p):
         if sym == "=":
             return q == c
         return OPS[sym](q, c)
-    if tag == "attr_eq":
+    if tag in ("attr_eq", "attr_eqn", "attr_eqb"):
         return getattr(agg.search, p[1]) == p[2]
-    if tag == "attr_eqn":
-        return getattr(agg.search, p[1]) == p[2] / 8.0
     if tag == "attr_contains":
         return getattr(agg.search, p[1]).contains(p[2])
     if tag == "attr_in":
@@ -152,7 +150,7 @@ def const_holds(sym, c, x):
     if x is MISSING:
         return False
     if "n" in c:
-        return isinstance(x, (int, float)) and not isinstance(x, bool) and bool(OPS[sym](x, c["n"] / 8.0))
+        return isinstance(x, (int, float)) and bool(OPS[sym](x, c["n"]))
     if "s" in c:
         return isinstance(x, str) and bool(OPS[sym](x, c["s"]))
     if "none" in c:
@@ -168,9 +166,9 @@ def direct(p, fit, inst):
         return not const_holds("=", p[2], resolve(inst, p[1]))
     if tag == "attr_eq":
         return getattr(fit, p[1]) == p[2]
-    if tag == "attr_eqn":
+    if tag in ("attr_eqn", "attr_eqb"):
         v = getattr(fit, p[1])
-        return v is not None and v == p[2] / 8.0
+        return v is not None and v == p[2]
     if tag == "attr_contains":
         v = getattr(fit, p[1])
         return v is not None and p[2] in v
@@ -210,16 +208,63 @@ def session_for(dbdesc):
     return _cache[key], False
 
 
+def fail(out, e, stage):
+    out["exc"] = exc_name(e)
+    out["msg"] = str(e)[:200]
+    out["stage"] = stage
+    return out
+
+
+def run_ops_case(c, agg, loaded, out):
+    preds = [o[1] for o in c["ops"] if o[0] == "query"]
+    out["direct_ops"] = [sorted(f.id for f, inst in loaded if direct(p, f, inst)) for p in preds]
+    try:
+        built = [build_query(agg, p) for p in preds]
+    except BaseException as e:  # noqa
+        return fail(out, e, "construct")
+    res = agg
+    k = 0
+    for o in c["ops"]:
+        if o[0] == "query":
+            try:
+                res = res.query(built[k]) if k % 2 == 0 else res(built[k])
+            except BaseException as e:  # noqa
+                return fail(out, e, "construct")
+            k += 1
+        elif o[0] == "order":
+            try:
+                res = res.order_by(getattr(agg.search, o[1]), reverse=o[2])
+            except BaseException as e:  # noqa
+                return fail(out, e, "construct")
+        else:
+            try:
+                res = res[slice(o[1], o[2], o[3])]
+            except BaseException as e:  # noqa
+                return fail(out, e, "execute")
+    try:
+        out["ids"] = [f.id for f in res.fits]
+        out["len"] = len(res)
+        out["iter_ids"] = [f.id for f in res]
+        i = c.get("index")
+        if i is not None and -len(out["ids"]) <= i < len(out["ids"]):
+            out["index_id"] = res[i].id
+    except BaseException as e:  # noqa
+        return fail(out, e, "execute")
+    return out
+
+
 def run_case(c):
     (engine, session, loaded), fresh = session_for(c["db"])
     out = {}
     if fresh or c.get("want_dump"):
         out["dump"] = dump_db(session)
-    # the predicate evaluated directly on every stored fit
-    out["direct"] = sorted(f.id for f, inst in loaded if direct(c["pred"], f, inst))
     out["all"] = [f.id for f, _ in loaded]
     top_only = c.get("top_only", False)
     agg = Aggregator(session, top_level_only=top_only)
+    if c["kind"] == "ops":
+        return run_ops_case(c, agg, loaded, out)
+    # the predicate evaluated directly on every stored fit
+    out["direct"] = sorted(f.id for f, inst in loaded if direct(c["pred"], f, inst))
     chain = bool(c.get("chain")) and c["pred"][0] == "and"
     try:
         if chain:
@@ -229,13 +274,10 @@ def run_case(c):
             q = None
         else:
             q = build_query(agg, c["pred"])
-    except BaseException as e:  # noqa
-        out["exc"] = exc_name(e)
-        out["msg"] = str(e)[:200]
-        out["stage"] = "construct"
-        return out
-    try:
         res = agg.query(left).query(right) if chain else agg.query(q)
+    except BaseException as e:  # noqa
+        return fail(out, e, "construct")
+    try:
         if c["kind"] == "order":
             for attr, rev in c["keys"]:
                 res = res.order_by(getattr(agg.search, attr), reverse=rev)
@@ -254,9 +296,7 @@ def run_case(c):
             # __call__ is the concise syntax for query
             out["ids_call"] = [f.id for f in (agg(left)(right) if chain else agg(q)).fits]
     except BaseException as e:  # noqa
-        out["exc"] = exc_name(e)
-        out["msg"] = str(e)[:200]
-        out["stage"] = "execute"
+        return fail(out, e, "execute")
     return out
 
 
